@@ -30,7 +30,7 @@ CHECKS.update({
 
 CHECKS.update({
  "C05": ("seq", "model_checking", "exhaustive enumeration of push sequences on real game boards vs reference game",
-   "All push sequences to depth n (17+ on confined fortresses, so five-fold repetition is reached; shuffles on the start position and on castling-rights roots; roots set up with clock 93..100; every placement of two bishops around a capture; K+minor / K+P material roots), also with the tail played on a Fork() taken at every depth and with a fresh board per path, each node compared with a reference game that counts occurrences over the whole game, keeps the FIDE clock and applies the insufficient-material rule as C05 words it; mate and stalemate nets in games that already carry a draw event (unclaimed repetition, clock 100 reached by the mating move) must still be adjudicated mate / stalemate.",
+   "All push sequences to depth n (17+ on confined fortresses, so five-fold repetition is reached; shuffles on the start position and on castling-rights roots; roots set up with clock 93..100; every placement of two bishops around a capture; K+minor / K+P material roots), also with the tail played on a Fork() taken at every depth and with a fresh board per path, each node compared with a reference game that counts occurrences over the whole game, keeps the FIDE clock and applies the insufficient-material rule as C05 words it; mate and stalemate nets in games that already carry a draw event (unclaimed repetition, clock 100 reached by the mating move) must still be adjudicated mate / stalemate. The repetition walks run once more on boards whose Zobrist table maps every position to 0 (a draw is a statement about positions, never about hashes); reason names are judged by their text.",
    "Bounded by history length and move alphabets (stated in the evidence rule); the reference game is ~100 lines of linear scans.", "DESIGN.md §5 C05"),
 })
 
@@ -66,10 +66,10 @@ CHECKS.update({
 
 CHECKS.update({
  "C04": ("mc", "model_checking", "stateless exploration of all schedules within a deviation bound x enumerated stop/timer instants, real goroutines on a controlled scheduler",
-   "The real driver, engine and iterative-deepening search of every bundled engine (construction lifted from cmd/*/main.go at check time) run on the controlled scheduler; engine x option x set-up x go-variant scenarios are crossed with every release instant of `stop` and of the timers on a grid over the whole run and, separately, with `stop` and the timers as lazy threads (any scheduling point, one deviation each); every schedule within the deviation bound is executed to completion: every go gets exactly one bestmove, legal in the position last set up, 0000 only without legal moves.",
+   "The real driver, engine and iterative-deepening search of every bundled engine (construction lifted from cmd/*/main.go at check time) run on the controlled scheduler; engine x option x set-up x go-variant scenarios are crossed with every release instant of `stop` and of the timers on a grid over the whole run and, separately, with `stop` and the timers as lazy threads (any scheduling point, one deviation each); every schedule within the deviation bound is executed to completion: every go gets exactly one bestmove, legal in the position last set up, 0000 only without legal moves. Conformance of that model with the shipped engines: the real binaries built from the tree under test and the lifted engines run the same 14 UCI sessions x 5 engine configurations and must print the same lines (info lines aside), answer every go once and exit with status 0 on quit and on end of input.",
    "Searches are tiny (K v K, fortress roots; depth <= 2) because every cancellation poll is a scheduling point; timers are arbitrary delays; weak-memory effects are not modelled; plain accesses of the driver packages are clock-checked and racing sites, if any, become scheduling points and the scenarios that showed them are explored again race-directed with two more deviations (none on this tree).", "DESIGN.md §3, §5 C04"),
  "C15": ("mc", "model_checking", "stateless exploration of all schedules within a deviation bound x enumerated halt instants; complete grid for the time-control limits",
-   "searchctl.Iterative runs on the controlled scheduler with a consumer, a halter released at every step of a grid over the run, a consumer that halts on seeing depth D next to the hard-limit timer (grid and lazy), the hard-limit timer and environment answers for time.Since; every schedule within the bound is checked against direct fixed-depth searches (faithful, increasing, ends exactly when it must, Halt guarantees). TimeControl.Limits is enumerated over a complete grid.",
+   "searchctl.Iterative runs on the controlled scheduler with a consumer, a halter released at every step of a grid over the run, a consumer that halts on seeing depth D next to the hard-limit timer (grid and lazy), the hard-limit timer and environment answers for time.Since; every schedule within the bound is checked against direct fixed-depth searches (faithful, increasing, ends exactly when it must, Halt guarantees). TimeControl.Limits is enumerated over a complete grid; a free-running engine analyses a three-move root under a grid of time controls incl. clocks of zero and below, a two-minute watchdog turning a hang into a finding; scenarios whose table an earlier analysis of the same root has filled.",
    "Small roots only; the 'reported before the halt was requested' clause is evaluated on what the consumer had received; plain accesses of searchctl are clock-checked and racing sites, if any, become scheduling points and the scenarios that showed them are explored again race-directed with two more deviations (none on this tree).", "DESIGN.md §5 C15"),
  "C16": ("mc", "model_checking", "stateless exploration of all schedules within a deviation bound x enumerated injection instants, real goroutines on a controlled scheduler",
    "GUI scripts `position; go X; <interrupting word>; isready; quit|EOF` over a 10-command alphabet (words of length <= 2) run against the real driver with the interrupting command released at every step of a grid over the uninterrupted run and, separately, as a lazy thread (any scheduling point for one deviation); every schedule within the deviation bound is executed and its event log checked: no panic, no deadlock, isready answered, no stale/duplicate/unsolicited bestmove (an answer for a go that had surely been superseded is one), clean shutdown. Also scripts without any position command, and scripts with the driver's buffered channels scaled down to two slots and a GUI that stops reading the output for a while (back-pressure must not become a deadlock).",
@@ -84,7 +84,7 @@ CHECKS.update({
    "Every word of < 4 (5) position/ucinewgame lines over a 27-line alphabet (and of that length with a last line from a 14-line core) of extending, repeating, shortening and prefix-colliding commands - incl. lines that play on after a claimable draw, FENs differing only in letter case or clocks, a white-space variant and promotion move lists - is fed to a real uci.Driver (isready/readyok hand-shake); the engine's position, counters, draw state and full board snapshot must equal those of the reference game of the last command alone and of a fresh driver given only that command, and continuations on a fork must report draws exactly where the reference game does.",
    "Bounded by word length and alphabet (three games); the alphabet validates its own lines at start.", "DESIGN.md §5 C10"),
  "C18": ("seq", "model_checking", "exhaustive case grids (sequential half) + stateless exploration with function-entry scheduling points (concurrent half)",
-   "Sequential: every (root, depth, configuration) twice / after other searches on the same Search value / under five hash seeds / with noise from one seed must give identical (score, PV, nodes); engine operation words leave the engine's game untouched across analyze/halt; engine words over the noise and depth options (analyses with and without a depth of their own): analyses reproducible from the seed and, with noise off, equal to those of a fresh never-noisy engine with another hash seed for that game and depth. Concurrent: a build with a scheduling point at the entry of every non-trivial function of board/search/eval and the historical engines explores every schedule within the bound of two engines searching side by side (also sharing one Search value) and of a noisy analysis started right after halting another one, with a halt-instant grid and each engine goroutine in turn held back (slow-thread dimension); and of each historical engine alone on castling- and capture-rich roots with the iteration order of every `for range` over a map as an explored environment choice.",
+   "Sequential: every (root, depth, configuration) twice / after other searches on the same Search value / under five hash seeds and under the zero-value Zobrist table that maps every position to 0 / with noise from one seed must give identical (score, PV, nodes); engine operation words leave the engine's game untouched across analyze/halt; engine words over the noise and depth options (analyses with and without a depth of their own): analyses reproducible from the seed and, with noise off, equal to those of a fresh never-noisy engine with another hash seed for that game and depth. Concurrent: a build with a scheduling point at the entry of every non-trivial function of board/search/eval and the historical engines explores every schedule within the bound of two engines searching side by side (also sharing one Search value) and of a noisy analysis started right after halting another one, with a halt-instant grid and each engine goroutine in turn held back (slow-thread dimension); and of each historical engine alone on castling- and capture-rich roots with the iteration order of every `for range` over a map as an explored environment choice.",
    "Concurrent half: K v K roots, depth 1-2; interleavings inside math/rand and other non-morlock code are not explored.", "DESIGN.md §5 C18"),
 })
 
